@@ -31,6 +31,9 @@ type ruleDesc struct {
 	Threshold float64 `json:"threshold"`
 	Interval  uint32  `json:"interval"`
 	Assoc     bool    `json:"assoc"`
+	// Leftover: a rule on the current resource that still names a reference resource (a valid configuration: the
+	// reference only matters under the associated relation strategy)
+	Leftover bool `json:"leftover_ref_resource,omitempty"`
 }
 
 type arrival struct {
@@ -109,6 +112,8 @@ func genCase(rng *rand.Rand) *caseDesc {
 			if reuse, _, _, _ := planRule(g, d); !reuse && rng.Intn(4) != 0 {
 				d.Interval = vk.PickU32(rng, 0, g.MIV, L, 2*L)
 			}
+		} else if rng.Intn(4) == 0 {
+			d.Leftover = true
 		}
 		c.Rules = append(c.Rules, d)
 	}
@@ -181,6 +186,9 @@ func runCase(idx int, c *caseDesc) {
 		r := &flow.Rule{ID: d.ID, Resource: res, TokenCalculateStrategy: flow.Direct, ControlBehavior: flow.Reject,
 			Threshold: d.Threshold, StatIntervalInMs: d.Interval}
 		src := res
+		if d.Leftover {
+			r.RefResource = Q
+		}
 		if d.Assoc {
 			r.RelationStrategy = flow.AssociatedResource
 			r.RefResource = Q
@@ -309,13 +317,22 @@ func runCase(idx int, c *caseDesc) {
 				fail("block-type", fmt.Sprintf("blocked with %s, expected flow", be.BlockType()))
 				return
 			}
-			if id := ruleID(be); id != blocker.d.ID {
-				fail("triggered-rule", fmt.Sprintf("triggered rule %q, expected first violated rule %q", id, blocker.d.ID))
+			// the rule blamed must be one whose window has no room for the batch (which of several such rules is
+			// reported, and the value reported with it, are not part of the property: counted only)
+			violated := false
+			for _, m := range models[res] {
+				if m.d.ID == ruleID(be) && float64(m.win.Sum(ref.EvPass, now, m.interval))+float64(a.Batch) > m.d.Threshold {
+					violated = true
+				}
+			}
+			if !violated {
+				fail("triggered-rule", fmt.Sprintf("rejected in the name of rule %q, which has room for the batch (first rule without room: %q)", ruleID(be), blocker.d.ID))
 				return
 			}
-			if v, ok := be.TriggeredValue().(float64); !ok || v != float64(cur) {
-				fail("triggered-value", fmt.Sprintf("triggered value %v, expected %d", be.TriggeredValue(), cur))
-				return
+			if id := ruleID(be); id != blocker.d.ID {
+				run.Count("blamed_rule_is_not_the_first_violated_one", 1)
+			} else if v, ok := be.TriggeredValue().(float64); !ok || v != float64(cur) {
+				run.Count("triggered_value_differs_from_window_sum", 1)
 			}
 		} else {
 			trace = append(trace, 'p')
@@ -360,7 +377,7 @@ func main() {
 	sx.Quiet()
 	run = vk.Start("C02", "seq")
 	defer run.Finish()
-	run.Rule("case = (global statistic geometry, 1-3 reject rules on R with thresholds incl. 0 and fractional, intervals default/reused/standalone, some associated to Q, optional rule on Q, 20-90 arrivals on R/Q with batches 0..11 and hostile time deltas); every decision, block type, triggered rule and triggered value is compared with the aligned-window model; non-trivial = the decision trace contains a pass and a block; distinct by (trace, rules, geometry).")
+	run.Rule("case = (global statistic geometry, 1-3 reject rules on R with thresholds incl. 0 and fractional, intervals default/reused/standalone, some associated to Q, optional rule on Q, 20-90 arrivals on R/Q with batches 0..11 and hostile time deltas); every decision and block type is compared with the aligned-window model, and the rule blamed for a rejection must be one without room; non-trivial = the decision trace contains a pass and a block; distinct by (trace, rules, geometry).")
 	run.Assume("sequential callers (GOMAXPROCS=1); the k-concurrent clause is decided by the coop engine", "window geometry of a rule follows the documented reuse rule of flow.generateStatFor")
 	clk = vclock.New(1700000000000)
 	n := run.N(400, 12000)
